@@ -251,9 +251,21 @@ class Peer:
     def _bad(self, msg: str) -> WireResponse:
         return json_response(400, {"error": msg})
 
+    def _authorised(self, req: WireRequest) -> bool:
+        sec = self.u.desc.get("security") or {}
+        exp = sec.get("expected")
+        if not exp:
+            return True
+        if "query" in exp:
+            return any(k == exp["query"] and v == exp["value"] for k, v in req.query)
+        return req.header(exp["header"]) == exp["value"]
+
     def _normal(self, op, args, req: WireRequest) -> WireResponse:
         c = self._coll(op.collection)
         store = self.store[op.collection]
+        if getattr(op, "secured", False) and not self._authorised(req):
+            self.fired["unauthorised"] = self.fired.get("unauthorised", 0) + 1
+            return json_response(401, {"error": "unauthorised"}, headers=[("WWW-Authenticate", "Basic")])
         # declared header parameter
         for p in op.params:
             if p.location == "header":
